@@ -1031,6 +1031,64 @@ def gen_extreme(ctx):
         yield "extreme:" + cls, a
 
 
+def gen_forms(ctx):
+    """The same cost matrices handed over in the other array-like forms callers use: nested lists / tuples, np.matrix,
+    numpy masked arrays without a mask, Fortran-ordered and strided views, read-only arrays; and a few LARGE matrices
+    (130..180 rows or columns: index bookkeeping beyond one byte) of small integers with many ties."""
+    rng = ctx.rng
+    for _ in range(ctx.scale(120, 1200)):
+        n, m = rng.randint(1, 6), rng.randint(1, 6)
+        if rng.random() < 0.4:
+            m = n
+        a = np.array([[rng.randint(0, 9) for _ in range(m)] for _ in range(n)], dtype=rng.choice([np.int64, np.float64]))
+        form = rng.choice(["list", "tuple", "matrix", "masked-nomask", "fortran", "strided", "readonly"])
+        yield "form:" + form, a, form
+    for _ in range(ctx.scale(3, 12)):
+        n, m = rng.randint(130, 180), rng.randint(130, 180)
+        if rng.random() < 0.5:
+            m = n
+        hi = rng.choice([3, 5, 9])
+        yield "form:large", np.array([[rng.randint(0, hi) for _ in range(m)] for _ in range(n)], dtype=np.int64), "plain"
+
+
+def in_form(a, form):
+    if form == "list":
+        return a.tolist()
+    if form == "tuple":
+        return tuple(tuple(r) for r in a.tolist())
+    if form == "matrix":
+        import warnings
+
+        with warnings.catch_warnings():
+            warnings.simplefilter("ignore")
+            return np.matrix(a)
+    if form == "masked-nomask":
+        return np.ma.masked_array(a)
+    if form == "fortran":
+        return np.asfortranarray(a)
+    if form == "strided":
+        big = np.repeat(np.repeat(a, 2, axis=0), 2, axis=1)
+        return big[::2, ::2]
+    if form == "readonly":
+        b = a.copy()
+        b.setflags(write=False)
+        return b
+    return a
+
+
+def forms_phase(ctx, out: Outcome):
+    for tag, arr, form in gen_forms(ctx):
+        arg = in_form(arr, form)
+        res = call_impl(arg, full=False, limit=120.0)
+        res_idx = call_impl(in_form(arr, form), full=False, limit=120.0, return_cost=False)
+        out.evaluations += 2
+        out.count("block:" + tag)
+        out.nontrivial(key_of(arr) + form)
+        for kind, msg in oracle_exact(arr, res, res_idx):
+            out.violations.append(Finding(kind, {"matrix": case_json(arr), "op": "X", "form": form}, observed=canon_impl(res, full=False)[:2000],
+                                          detail=f"[cost matrix passed as {form}] " + msg))
+
+
 def _exact(x):
     from fractions import Fraction
 
@@ -1311,6 +1369,7 @@ def run(ctx: Ctx) -> Outcome:
             res, ci = impl_phase(ctx, out, tag, op, arr)
             done[i] = (res if op != "T" else (res[0],), ci)  # traces are kept only in canonical form
     extreme_phase(ctx, out)
+    forms_phase(ctx, out)
     exact_phase(ctx, out)
     seqlog = seq_phase(ctx, out, seqs, hung)
     model = {}
@@ -1374,8 +1433,8 @@ def replay(ctx: Ctx, case) -> Outcome:
     arr = case_array(case["matrix"])
     op = case.get("op", "T")
     if op == "X":
-        res = call_impl(arr, full=False, limit=30.0)
-        res_idx = call_impl(arr, full=False, limit=30.0, return_cost=False)
+        res = call_impl(in_form(arr, case.get("form", "plain")), full=False, limit=120.0)
+        res_idx = call_impl(in_form(arr, case.get("form", "plain")), full=False, limit=120.0, return_cost=False)
         out.evaluations += 2
         for kind, msg in oracle_exact(arr, res, res_idx):
             out.violations.append(Finding(kind, {"matrix": case_json(arr), "op": "X"}, observed=canon_impl(res, full=False)[:2000], detail=msg))
